@@ -44,7 +44,10 @@ RULE = (
     "below existing names, so glue re-flagging, nested cuts and whole-node deletes occur), readers pinned before and after, "
     "then every node / rdataset object handed out by every public route of every retained version is attacked; "
     "aliasing histories: every Rdataset / RRset / rdata list handed to txn.add / txn.replace and every object taken out of "
-    "the writer (txn.get, get_node, iterate_rdatasets) is kept and mutated by its owner after each commit"
+    "the writer (txn.get, get_node, iterate_rdatasets) is kept and mutated by its owner after each commit; "
+    "lock interleavings: after a history prefix, one call (reader by latest/id/serial, close, commit, policy change) runs with a "
+    "wrapping _version_lock that counts its critical sections and lets a complete concurrent operation (writer transaction "
+    "with pruning, reader close, policy change) run at every release point inside the call"
 )
 TRUSTED_BASE = [
     "Python reference semantics: a read transaction keeps a reference to its version object",
